@@ -228,6 +228,14 @@ func init() {
 			}
 			extra = append(extra, Phase{Name: "a validator stops at d and comes back 4/16/28 steps later (restarted empty with fast-sync, n=4; restarted from its database with fast-sync enabled, n=3), then the seed goes on and the fair suffix follows", Items: rs})
 		}
+		// a leaving validator that is silent already, and a second validator that stops at every possible later moment
+		{
+			var ls []sched.Item
+			for p := 0; p <= 72; p++ {
+				ls = append(ls, sched.Item{Scenario: fmt.Sprintf("leavesilent:8:%d:24", p), Mode: "s3", Mons: mons, Suffix: 40})
+			}
+			extra = append(extra, Phase{Name: "5 validators, the leaving one silent, a second one stops p steps later (p = 0..72); judged when, at that moment, every remaining validator has a head in or after the round from which the set has four members", Items: ls})
+		}
 		// the standard S1 phases without suffix add nothing for liveness: keep the S3 phases only
 		var keep []Phase
 		for _, p := range ph {
